@@ -91,6 +91,7 @@ OnOut(m, ev) ==
             ELSE IF ev.s # EffAlias(m) THEN Fail(m1, "C19:connack-announces-wrong-topic-alias-maximum")
             ELSE IF (IF ev.q = 0 THEN 65535 ELSE ev.q) # EffRM(m) THEN Fail(m1, "C19:connack-announces-wrong-receive-maximum")
             ELSE IF m.ackKa > 0 /\ m.ka > m.ackKa /\ ev.n # m.ackKa THEN Fail(m1, "C19:imposed-keep-alive-not-announced")
+            ELSE IF m.ackKa <= 0 /\ ev.n >= 0 THEN Fail(m1, "C19:server-keep-alive-announced-although-nothing-was-imposed")
             ELSE m1)
          ELSE m1
     [] ev.k = "DISCONNECT" -> [m EXCEPT !.discCode = ev.r]
